@@ -151,6 +151,8 @@ fn make_project(rng: &mut Rng) -> Project {
         "export type C = string[];\n",
         "export type C = { c: 2; d?: null };\nexport type NotThere = \"now it is\";\n",
     ];
+    // texts that parse but declare nothing: an emptied file, white space, a comment, `export {}`, a BOM
+    let blank = vec!["", "\n", "   \n\n", "// nothing here any more\n", "export {};\n", "\u{feff}"];
     let mut files = vec![];
     let mk = |valid: &Vec<&'static str>, unres: &Vec<&'static str>, unp: &Vec<&'static str>| {
         let mut v: Vec<(&'static str, String)> = vec![];
@@ -162,6 +164,11 @@ fn make_project(rng: &mut Rng) -> Project {
         }
         for t in unp {
             v.push(("unparsable", t.to_string()));
+        }
+        if !unp.is_empty() {
+            for t in &blank {
+                v.push(("blank", t.to_string()));
+            }
         }
         v
     };
